@@ -147,6 +147,10 @@ func run(r *mon.Run) {
 			shape = "pre-encoded"
 		}
 		spec.RespHeaders = h
+		// validity URLs with the characters a quoted structured-header string has to escape, also as the very last one
+		if g.Chance(1, 6) {
+			spec.ValidityURL = "https://example.com/resource.validity" + mon.Pick(g, []string{"?dir=C:\\", "?q=\"x\"", "?a=\\\\", "?p=\\\"", "?end=\"", "?tab=a\\tb", "?\\", "?x=1&y=\\&z=\""})
+		}
 		spec.Status = mon.Pick(g, []int{200, 200, 203, 404, 302, 500})
 		if ver != version.Version1b3 {
 			spec.Method = mon.Pick(g, []string{"GET", "GET", "HEAD", "POST"})
